@@ -9,8 +9,6 @@ Open Scope N_scope.
 Lemma tie_tcmaker_append c t m : gen_tcmaker_append c t m = tm_append c m t.
 Proof.
   unfold gen_tcmaker_append, tm_append. destruct m as [w vs us].
-  gmunf; gunf; unfold set_tm_weight, set_tm_votes, set_tm_used; cbn [tm_weight tm_votes tm_used].
-  destruct (memN (t_author t) us); cbn [fst snd]; [reflexivity|].
-  cbn [tm_weight tm_votes tm_used].
-  destruct (quorum c <=? w + stake c (t_author t)); reflexivity.
+  gmunf; gunf; unfold set_tm_weight, set_tm_votes, set_tm_used; cbn [tm_weight tm_votes tm_used fst snd].
+  repeat (tsplit1; cbn [tm_weight tm_votes tm_used fst snd negb]); tdone; f_equal; tdone.
 Qed.
